@@ -6,6 +6,7 @@ import (
 	"encoding/json"
 	"fmt"
 	"net/http"
+	"net/url"
 	"net/http/httptest"
 	"sort"
 	"strconv"
@@ -372,6 +373,8 @@ func (e *ex) Do(op string) core.Result {
 		return jsonstr(t)
 	case "logmany":
 		return e.logmany(t)
+	case "query":
+		return queryOp(t)
 	}
 	return core.Result{Impl: "bad-op"}
 }
@@ -879,4 +882,34 @@ func entryDiff(o, b *har.Entry) (string, bool) {
 		}
 	}
 	return "", false
+}
+
+// query <hex raw>: the tie of Model/Query.lean: (&url.URL{RawQuery: raw}).Query(), names sorted, values
+// of one name in order, against the model's parseQuery; and the independent reading queryOf.
+func queryOp(t []string) core.Result {
+	if len(t) != 2 {
+		return core.Result{Impl: "bad-op"}
+	}
+	raw, ok := core.Unhex(t[1])
+	if !ok {
+		return core.Result{Impl: "bad-op"}
+	}
+	q := (&url.URL{RawQuery: string(raw)}).Query()
+	var names []string
+	for n := range q {
+		names = append(names, n)
+	}
+	sort.Strings(names)
+	var l []msggen.KV
+	for _, n := range names {
+		for _, v := range q[n] {
+			l = append(l, msggen.KV{K: n, V: v})
+		}
+	}
+	core.Count("query")
+	impl := "query " + kvTok(l)
+	if msggen.KVString(sortPairs(l)) != msggen.KVString(queryOf("?"+string(raw))) {
+		return core.Result{Impl: impl, Sig: "c16:query-reader", Fail: fmt.Sprintf("url.ParseQuery reads %q as %s, the oracle's own reader as %s", raw, msggen.KVString(sortPairs(l)), msggen.KVString(queryOf("?"+string(raw))))}
+	}
+	return core.Result{Impl: impl}
 }
